@@ -4,7 +4,7 @@ import (
 	"github.com/glebziz/fs_db/internal/usecase/store"
 )
 
-func (c *Container) Store() *store.UseCase {
+func (c *Container) Store() store.Checked {
 	if c.storeUseCase == nil {
 		c.storeUseCase = store.New(
 			c.Dir(),
@@ -17,5 +17,5 @@ func (c *Container) Store() *store.UseCase {
 		)
 	}
 
-	return c.storeUseCase
+	return store.Checked{UseCase: c.storeUseCase}
 }
